@@ -45,4 +45,11 @@ private output directories (the shared lake lock was saturated), the four known 
  M8 `!sibling.HasParent()` dropped                         -> C25_facts_ok fails; 5852 disagreements; no new oracle class (listing unneeded hidden
       sub-targets is not unsafe) => exit 1 with proof-broken / correspondence-broken `no-failing-input-found`
  H1 harmless: locals renamed (sibling->sib, subinclude->inc, depTarget->dt) -> facts identical, 0 disagreements, only the four known classes
+Fix phase (all four findings repaired in /repo). Re-introducing each defect on a scratch clone (`git revert -n <fix>`), steps of the
+check run privately against it:
+ revert 9dea07a (gc_sibling)      -> class gc-sibling-overrides-keep again on corpus/C25/fixed-gc-sibling-overrides-keep.ops and 1014 generated inputs; 987 disagreements
+ revert 0ef96ba (data files)      -> gc-data-file-not-kept on its fixed-*.ops witness and 1261 inputs; 1234 disagreements
+ revert f5ccc0d (parent rule)     -> gc-rule-of-needed-subtarget-removed on its witness and 4556 inputs; 3627 disagreements
+ revert 031fda8 (test fixpoint)   -> gc-test-of-later-kept-target on its witness and 323 inputs; 186 disagreements
+In every case C25_facts_ok no longer proves either (the passes / addTarget facts differ).
 """
